@@ -80,6 +80,16 @@ CLAIMED["C17"] = dict(
     note="<=3 initial trials (+1 appended), 2 names, <=3 epochs: small-scope claim, the cursor logic only compares trial numbers",
     design="§3 C17")
 
+CLAIMED["C14"] = dict(
+    level="exploration",
+    text="Exhaustive bounded case split over the real BruteForceSampler/GridSampler inside the real optimize loop: program shapes enumerated "
+         "up to 7 leaves; within a shape every rng.choice (all seeds), every leaf outcome (complete/fail/pruned) and every interruption point "
+         "with a fresh sampler object are explorer forks; every path asserts each combination exactly once and self-termination. All inputs are "
+         "finite structural choices, so the solver has nothing numeric to decide: the deciding step is the executor's complete path enumeration.",
+    note="deterministic objectives; interruptions strictly inside the run; n_jobs>1 outside; RNG stub honours RandomState.choice's contract",
+    technique="exhaustive bounded path enumeration of the real code by the symbolic executor (structural forks only; z3 not exercised)",
+    design="§3 C14")
+
 NOT_APPLICABLE = {
     "C03": "thread/process pre-emption at source-line granularity inside the storage layer cannot be made a symbolic variable over the "
            "real Python code by a solver-based executor; its atomic-step obligations are discharged under C01/C04/C06/C07",
